@@ -137,8 +137,10 @@ def ed25519(ctx, world, ev):
     f = loopf[0]
     site = (f.mod.relpath, f.node.lineno, f.node.name)
     loops = [n for n in ast.walk(f.node) if isinstance(n, (ast.For, ast.While))]
-    ok = len(loops) == 1 and isinstance(loops[0], ast.For)
-    ctx.ob("H6", "loop shape", ok, "one for-loop over successive candidates" if ok else "unexpected loop structure", site)
+    ok = len(loops) == 1 and (isinstance(loops[0], ast.For) or
+                              (isinstance(loops[0].test, ast.Constant) and loops[0].test.value in (True, 1) and not loops[0].orelse))
+    ctx.ob("H6", "loop shape", ok, "one loop over successive candidates (for over a counter, or while True with a carried candidate)" if ok else
+           "unexpected loop structure", site)
     if not ok:
         return
     e2 = Ev(world, loop_mode="once")
@@ -160,15 +162,15 @@ def ed25519(ctx, world, ev):
         coords = [v for v in o.state.heap[o.value.oid].values() if isinstance(v, TupleV) and len(v.items) == 4]
         ctx.require(coords, "no coordinates on the derived element")
         lad = gm.unproj(coords[0])
-        okl = lad is not None and lad.f.startswith("fn:") and len(lad.args) == 2 and lad.args[1] == Const(8)
+        lc = gm.ladder_call(world, ev, lad)
+        okl = lc is not None and lc["n"] == Const(8)
         why = ""
         P = None
         if okl:
-            lf = gm.func_by_qual(world, lad.f[3:])
-            uses = set(gm.ladder_info(world, ev, lf)) if lf is not None else set()
-            okl = lf is not None and e2.policy.classify(lf) == "recursive" and bool(uses & complete) and not (uses & dedicated)
+            uses = lc["uses"]
+            okl = bool(uses & complete) and not (uses & dedicated)
             why = "ladder uses %s" % sorted(uses)
-            P = lad.args[0]
+            P = lc["pt"]
         ctx.ob("H6", "cofactor multiplication", okl, "result = 8 * P computed with the complete-addition ladder" if okl else
                "result is not 8*P by the complete ladder (%s): %s" % (why, show(lad, maxdepth=3) if lad is not None else None), site)
         if P is None or not isinstance(P, TupleV):
@@ -178,13 +180,23 @@ def ed25519(ctx, world, ev):
             return t.args[0] if is_app(t, "Mod") and t.args[1] == Const(Q) else t
         x, yp = strip(P.items[0]), P.items[1]
         yp = yp if not (is_app(yp, "Mod") and is_app(yp.args[0], "Mod")) else yp.args[0]
+        if is_app(yp, "Mod") and yp.args[1] == Const(Q) and isinstance(yp.args[0], Sym) and yp.args[0].n.startswith("loop:"):
+            yp = yp.args[0]        # a carried candidate is already reduced (checked by induction below)
         it = [t for t in subterms(yp) if is_app(t, "iter-elem")]
         oky = len(it) == 1 and yp == mk_app("Mod", (mk_app("Add", (y0, it[0])), Const(Q))) and is_app(it[0].args[0], "itertools.count") \
             and it[0].args[0].args in ((Const(0),), ()) and not it[0].args[0].kw
+        if not oky and isinstance(yp, Sym) and yp.n.startswith("loop:"):
+            # while True: the candidate is a loop-carried local.  Induction: it is y0 before the loop and
+            # every way back to the loop head replaces it by (candidate + 1) mod Q
+            name = yp.n[5:]
+            entry = [c for (_, c) in e2.loop_entries if name in c]
+            nxt = mk_app("Mod", (mk_app("Add", (yp, Const(1))), Const(Q)))
+            backs = [p.val["locals"].get(name) for p in e2.continues]
+            oky = len(entry) == 1 and entry[0][name] == y0 and bool(backs) and all(b == nxt for b in backs)
         ctx.ob("H6", "candidates", oky, "candidates are (y + k) mod Q for k = 0, 1, 2, ... with y = be2int(HKDF(seed, 48 bytes)) mod Q" if oky else
                "candidate y is %s" % show(yp, maxdepth=7), site)
         if oky:
-            check_hkdf(ctx, "H4", "Ed25519.arbitrary_element", yp, INFO_ELEM, Const(48), seed, site)
+            check_hkdf(ctx, "H4", "Ed25519.arbitrary_element", yp if not isinstance(yp, Sym) else y0, INFO_ELEM, Const(48), seed, site)
         okx = isinstance(x, App) and x.f.startswith("fn:") and x.args == (yp,) and e2.policy.classify(gm.func_by_qual(world, x.f[3:])) == "leaf"
         whyx = ""
         if okx:
@@ -194,6 +206,12 @@ def ed25519(ctx, world, ev):
         # on-curve, identity skip, L-torsion assert
         oncurve = any(is_app(t, "Eq", "NotEq") and (p is (t.f == "Eq")) and Const(0) in t.args and
                       any(is_app(a, "Mod") and a.args[1] == Const(Q) for a in t.args) for (t, p) in conds)
+        for (t, p) in conds:
+            if isinstance(t, App) and t.f.startswith("fn:") and p is True and len(t.args) == 1 and isinstance(t.args[0], TupleV) \
+                    and len(t.args[0].items) == 2 and t.args[0].items[1] == yp:
+                cf = gm.func_by_qual(world, t.f[3:])
+                if cf is not None and gm.oncurve_test_ok(world, ev, cf)[0]:
+                    oncurve = True
         ctx.ob("H6", "on-curve filter", oncurve, "candidate used only if it satisfies the curve equation (C12 P5 checks the predicate)" if oncurve else
                "no on-curve condition on the returning path", site)
         idt = [(t, p) for (t, p) in conds if isinstance(t, App) and t.f.startswith("fn:") and len(t.args) == 1
@@ -204,9 +222,9 @@ def ed25519(ctx, world, ev):
         tors = False
         for (t, p) in idt:
             c = gm.unproj(t.args[0])
-            if p is True and c is not None and c.f.startswith("fn:") and len(c.args) == 2 and c.args[0] == coords[0] and c.args[1] == L:
-                lf = gm.func_by_qual(world, c.f[3:])
-                uses = set(gm.ladder_info(world, ev, lf)) if lf is not None else set()
+            lc = gm.ladder_call(world, ev, c) if p is True else None
+            if lc is not None and lc["pt"] == coords[0] and lc["n"] == L:
+                uses = lc["uses"]
                 tors = bool(uses & complete) and not (uses & dedicated)
         ctx.ob("H6", "L-torsion asserted", tors, "L * (8P) == identity asserted with the complete ladder" if tors else
                "the result is not asserted to have order L", site)
